@@ -547,6 +547,184 @@ def float_stress_section(ck):
             except Exception as e:  # noqa
                 ck.fail("average_link_graph/raises", "average_link_graph raised %s: %s" % (type(e).__name__, e), rep)
 
+# ------------------------------------------------------------------ *_segment wrappers over their whole argument range
+class _Degenerate(Exception):
+    pass
+
+
+def cut_labels_at(parents, hs, n, th, strict_leaves):
+    """labels of the n items when the dendrogram is cut at height th (merges of height < th are kept).  An item whose
+    own height is not below th is outside the domain of the current partition(): _Degenerate (strict_leaves)."""
+    if strict_leaves and any(not (hs[i] < th) for i in range(n)):
+        raise _Degenerate("threshold %s is not above the leaves' height" % th)
+    top = []
+    for i in range(n):
+        v = i
+        while parents[v] != v and hs[parents[v]] < th:
+            v = parents[v]
+        top.append(v)
+    return canon(top)
+
+
+def split_labels(parents, hs, n, k):
+    """WeightedForest.split as documented: the trees when k <= number of trees, else the cut at the (k - c)-th largest height"""
+    V = len(parents)
+    k = min(int(k), V)
+    c = sum(1 for v in range(V) if parents[v] == v)
+    if k <= c:
+        return cut_labels_at(parents, hs, n, float("inf"), False)
+    th = sorted(hs)[c - k]
+    return cut_labels_at(parents, hs, n, th, True)
+
+
+def segment_expected(kind, parents, hs, n, stop, qmax):
+    """independent restatement of the *_segment docstrings: the finer of the cut at `stop` (no such cut for stop < 0,
+    stop == -1 meaning no stopping criterion for Ward) and of the cut into qmax groups (qmax == -1: as many as possible)"""
+    inf = float("inf")
+    if kind == "average_link_graph_segment":
+        if qmax == -1:
+            qmax = n
+        qmax = int(min(qmax, n))
+        th = -stop if stop >= 0 else None          # heights are negated similarities
+    else:
+        if kind == "ward_segment" and qmax == -1:
+            qmax = n - 1
+        if stop == -1:
+            stop = inf
+        qmax = int(min(qmax, n - 1))
+        th = stop if stop >= 0 else None
+    u1 = [0] * n
+    u2 = [0] * n
+    which = None
+    try:
+        if th is not None:
+            which = "partition/raises/threshold-not-above-leaf-height"
+            u1 = cut_labels_at(parents, hs, n, th, True)
+        if qmax > 0:
+            which = "split/raises/zero-cost-merge"
+            u2 = split_labels(parents, hs, n, qmax)
+    except _Degenerate:
+        return None, which
+    return (u2 if max(u1) < max(u2) else u1), None
+
+
+def segment_section(ck):
+    """ward_segment, ward_quick_segment, ward_field_segment and average_link_graph_segment for stop in {-1, negative, 0, 1,
+    every merge height, just below / above it, beyond the last one, inf} x qmax in {-1, 0, 1, 2, .., n-1, n, n+3}, integer
+    features and integer similarities; reference = the cut of the dendrogram the corresponding builder returns."""
+    import warnings
+    from nipy.algorithms.clustering import hierarchical_clustering as hc
+    from nipy.algorithms.graph.graph import WeightedGraph
+    try:
+        from nipy.algorithms.graph.field import Field
+    except Exception:  # noqa
+        Field = None
+    rng = ck.rng("segment")
+    shapes = [("path", 5, [(i, i + 1) for i in range(4)]), ("cycle", 6, [(i, (i + 1) % 6) for i in range(6)]),
+              ("grid", 6, [(0, 1), (1, 2), (3, 4), (4, 5), (0, 3), (1, 4), (2, 5)]),
+              ("two-paths", 7, [(0, 1), (1, 2), (3, 4), (4, 5), (5, 6)]), ("star", 5, [(0, i) for i in range(1, 5)]),
+              ("complete", 4, list(itertools.combinations(range(4), 2)))]
+    ncalls = 0
+    nraise = 0
+    terms, meta = [], []
+    for t in range(ck.n(12, 90)):
+        name, n, E0 = shapes[t % len(shapes)]
+        E = sorted((min(a, b), max(a, b)) for a, b in E0)
+        Ed = E + [(b, a) for a, b in E]
+        p = int(rng.integers(1, 3))
+        feat = rng.integers(0, 6, size=(n, p)).astype(float)
+        if t % 4 == 3:
+            feat[1] = feat[0]                         # duplicated items: a zero-cost merge
+        sim = {e: int(rng.integers(1, 5)) for e in E}  # integer similarities (co-occurrence counts)
+        W = np.array([float(sim[(min(a, b), max(a, b))]) for a, b in Ed])
+        edges = np.array(Ed, dtype=np.int_)
+
+        def graph(weights):
+            return WeightedGraph(n, edges.copy(), weights.copy())
+        builders = [("ward_segment", lambda: hc.ward(graph(np.ones(len(Ed))), feat.copy()),
+                     lambda st, q: hc.ward_segment(graph(np.ones(len(Ed))), feat.copy(), stop=st, qmax=q)),
+                    ("ward_quick_segment", lambda: hc.ward_quick(graph(np.ones(len(Ed))), feat.copy()),
+                     lambda st, q: hc.ward_quick_segment(graph(np.ones(len(Ed))), feat.copy(), stop=st, qmax=q)),
+                    ("average_link_graph_segment", lambda: hc.average_link_graph(graph(W)),
+                     lambda st, q: hc.average_link_graph_segment(graph(W), stop=st, qmax=q))]
+        if Field is not None and t % 3 == 0:
+            builders.append(("ward_field_segment", lambda: hc.ward_quick(graph(np.ones(len(Ed))), feat.copy()),
+                             lambda st, q: hc.ward_field_segment(Field(n, edges.copy(), np.ones(len(Ed)), feat.copy()), stop=st, qmax=q)))
+        for kind, build, call in builders:
+            with warnings.catch_warnings():
+                warnings.simplefilter("ignore")
+                try:
+                    tr = build()
+                except Exception as e:  # noqa
+                    ck.fail("%s/builder-raises" % kind, "%s: %s" % (type(e).__name__, e), {"graph": name, "features": feat.tolist()})
+                    continue
+            parents = [int(v) for v in tr.parents]
+            hs = [float(v) for v in tr.height]
+            inner = sorted(set(hs[n:]))
+            sign = -1.0 if kind == "average_link_graph_segment" else 1.0
+            stops = {-1, -0.5, 0, 1, 1.0, 2, float("inf")}
+            for h in inner:                               # a merge height itself, just below, just above, half a unit away
+                v = sign * h
+                stops |= {v, float(np.nextafter(v, -np.inf)), float(np.nextafter(v, np.inf)), v - 0.5, v + 0.5}
+            stops.add(sign * inner[-1] + 1.0 if sign > 0 else sign * inner[0] + 1.0)
+            stops = sorted(x for x in stops if x >= 0 or x in (-1, -0.5))
+            if not ck.thorough():                         # thin out the neighbours of the merge heights only
+                keep = {-1, -0.5, 0, 1, 2, float("inf")} | {sign * h for h in inner}
+                rest = [x for x in stops if x not in keep]
+                stops = sorted(keep & set(stops) | set(rest[::3]))
+            rep0 = {"function": kind, "graph": name, "n": n, "edges": [list(e) for e in Ed], "features": feat.tolist(),
+                    "similarities": {"%d-%d" % e: v for e, v in sim.items()}, "dendrogram_parents": parents, "dendrogram_height": hs}
+            for stop in stops:
+                for qmax in (-1, 0, 1, 2, n - 1, n, n + 3):
+                    if stop != float("inf") and int(stop) == stop and (t + qmax) % 2:
+                        stop_arg = int(stop)              # the same number as a Python int
+                    else:
+                        stop_arg = stop
+                    rep = dict(rep0, stop=repr(stop_arg), qmax=qmax)
+                    ncalls += 1
+                    ck.count(("seg", kind, name, feat.tolist(), tuple(sim.values()), repr(stop_arg), qmax),
+                             bucket="segment:%s" % kind)
+                    exp, degenerate = segment_expected(kind.replace("ward_field_segment", "ward_quick_segment"), parents, hs, n, stop, qmax)
+                    with warnings.catch_warnings():
+                        warnings.simplefilter("ignore")
+                        try:
+                            u, cost = call(stop_arg, qmax)
+                            u = canon(u)
+                        except Exception as e:  # noqa
+                            nraise += 1
+                            if degenerate is not None and isinstance(e, ValueError) and "no vertex" in str(e):
+                                ck.fail(degenerate, "%s(stop=%r, qmax=%d) raised ValueError: %s (heights %s)" % (kind, stop_arg, qmax, e, hs), rep)
+                            else:
+                                ck.fail("%s/raises/%s" % (kind, type(e).__name__), "%s(stop=%r, qmax=%d) raised %s: %s"
+                                        % (kind, stop_arg, qmax, type(e).__name__, e), rep)
+                            u = None
+                    if kind == "ward_segment" and all(float(v) == int(v) for v in [x for r in feat for x in r]) and n <= 7 \
+                            and all(F(h).denominator <= 1 << 20 for h in hs):
+                        terms.append("onats_eqb (ward_segment_u %s %s %s %s %s) %s" % (
+                            cnat(n), cnatl(parents), "[%s]" % "; ".join(cq(F(h)) for h in hs),
+                            "None" if stop in (-1, float("inf")) else "(Some %s)" % cq(F(stop)), cz(qmax),
+                            "None" if u is None else "(Some %s)" % cnatl(u)))
+                        meta.append(rep)
+                    if u is None or exp is None:
+                        continue
+                    if u != exp:
+                        feature = ("stop-equals-merge-height" if sign * stop in inner else
+                                   "stop=-1" if stop == -1 else "stop-negative" if stop < 0 else
+                                   "stop=inf" if stop == float("inf") else "stop-between-heights")
+                        ck.fail("%s/labels-not-the-finer-cut/%s" % (kind, feature),
+                                "%s(stop=%r, qmax=%d) = %s, the finer of the cut at stop and of the cut into qmax groups is %s "
+                                "(heights %s)" % (kind, stop_arg, qmax, u, exp, hs), rep)
+                    want = [sign * h for h in hs[n:]]
+                    if [float(v) for v in cost] != want:
+                        ck.fail("%s/cost-not-merge-costs" % kind, "cost %s, merge costs of the dendrogram %s" % (list(cost), want), rep)
+    if ck.build is not None and ck.build.ok and terms:
+        res = ck.coq_bools(HDR, terms, shard=150, name="seg")
+        ck.cov["traces_validated_against_impl"] += len(res)
+        for ok, rep in zip(res, meta):
+            if not ok:
+                ck.fail("ward_segment/model-vs-impl", "Gallina model and implementation disagree (ward_segment): %s" % str(rep)[:300], rep)
+    ck.section("segment", calls=ncalls, raised=nraise, model_cases=len(terms))
+
 
 def run(ck):
     ck.cov["rule"] = ("kmeans: integer data matrices (1..5 features, duplicates/ties), all k 1..n, initial labellings incl. empty "
@@ -563,6 +741,7 @@ def run(ck):
     float_stress_section(ck)
     t2 = time.time()
     hierarchical_section(ck)
+    segment_section(ck)
     t3 = time.time()
     ck.section("timing", build_s=round(t1 - t0, 1), kmeans_s=round(t2 - t1, 1), hierarchical_s=round(t3 - t2, 1))
 
